@@ -4,6 +4,7 @@ package main
 // (placeholder subset), write-footprint tracking.
 
 import (
+	"io/fs"
 	"fmt"
 	"go/types"
 	"regexp"
@@ -520,6 +521,25 @@ func (ex *Exec) hostMethodExt(h *Host, name string) func(ex *Exec, args []Value)
 		return func(ex *Exec, args []Value) Value { return h.Data.(Str) }
 	case "os.DirEntry.IsDir":
 		return func(ex *Exec, args []Value) Value { return ex.ts.False() }
+	case "os.FileInfo.Name":
+		return func(ex *Exec, args []Value) Value { return h.Data.(*statInfo).name }
+	case "os.FileInfo.Size":
+		return func(ex *Exec, args []Value) Value {
+			si := h.Data.(*statInfo)
+			if si.symSize != nil {
+				return si.symSize
+			}
+			return ex.ts.Const(64, uint64(si.size))
+		}
+	case "os.FileInfo.IsDir":
+		return func(ex *Exec, args []Value) Value { return ex.ts.Bool(h.Data.(*statInfo).dir) }
+	case "os.FileInfo.Mode":
+		return func(ex *Exec, args []Value) Value {
+			if h.Data.(*statInfo).dir {
+				return ex.ts.Const(32, uint64(fs.ModeDir|0o700))
+			}
+			return ex.ts.Const(32, 0o600)
+		}
 	}
 	return nil
 }
